@@ -826,3 +826,143 @@ func (r *Run) MustPassUnless(fnName, match, unless, why string) {
 	}
 	r.pass("K2-must-pass", fnName, construct, fmt.Sprintf("%d call site(s), %d exempting branch(es)", len(sites), nUnless), why, sites[0].File, sites[0].Line)
 }
+
+// extFn finds a non-module function by its go/ssa string form, e.g.
+// "(*github.com/syndtr/goleveldb/leveldb.DB).Write".
+func (r *Run) extFn(full string) *ssa.Function {
+	for f := range r.P.allFns {
+		if f.String() == full {
+			return f
+		}
+	}
+	return nil
+}
+
+// WhoMayCallExt: module functions with a CHA edge to the external function `full` ⊆ allowed.
+// zeroOK: the external function may have no module caller at all.
+func (r *Run) WhoMayCallExt(construct, full string, allowed []string, zeroOK bool, why string) {
+	f := r.extFn(full)
+	if f == nil {
+		if zeroOK {
+			r.pass("K1-who-may-call", "", construct, full+" is not part of the program (no caller possible)", why, "", 0)
+			return
+		}
+		r.viol("unresolved-anchor", "", construct, "external function "+full+" not found in the program", why, "", 0)
+		return
+	}
+	callers := r.callersOf(map[*ssa.Function]bool{f: true}, r.P.CHA())
+	var names []string
+	for n := range callers {
+		names = append(names, n)
+	}
+	sort.Strings(names)
+	n := 0
+	for _, name := range names {
+		if isScaffolding(name) {
+			continue
+		}
+		e := callers[name][0]
+		file, line := "", 0
+		if e.Site != nil {
+			file, line = r.P.Pos(e.Site.Pos())
+		}
+		if matchAny(name, allowed) {
+			n++
+			r.pass("K1-who-may-call", name, construct, "allowed caller of "+full, why, file, line)
+		} else {
+			r.viol("K1-who-may-call", name, construct, fmt.Sprintf("%s calls %s (%s) but is not in the allowed set: %s", name, full, construct, strings.Join(allowed, ", ")), why, file, line)
+		}
+	}
+	if n == 0 && !zeroOK {
+		r.viol("vacuous-rule", "", construct, "no caller of "+full+" found", why, "", 0)
+	}
+	if n == 0 && zeroOK {
+		r.pass("K1-who-may-call", "", construct, "no module function calls "+full, why, "", 0)
+	}
+}
+
+// OnlyUnder: every call matching `match` in fn is reachable only through the edge on which the
+// canonical branch condition cond holds.
+func (r *Run) OnlyUnder(fnName, cond, match, why string) {
+	fn := r.fn(fnName)
+	if fn == nil {
+		return
+	}
+	cond = r.X(cond)
+	file, line := r.P.FnPos(fn)
+	construct := match + " only when " + cond
+	sites := r.P.FindCalls(fn, match, false)
+	if len(sites) == 0 {
+		r.viol("K2-only-under", fnName, construct, fnName+" no longer calls "+match, why, file, line)
+		return
+	}
+	for _, g := range r.P.Info(fn).guards {
+		var to *ssa.BasicBlock
+		if g.Cond.String() == cond {
+			to = g.Block.Succs[0]
+		} else if g.Cond.Negate().String() == cond {
+			to = g.Block.Succs[1]
+		} else {
+			continue
+		}
+		for _, cs := range sites {
+			if !edgeDominates(g.Block, to, cs.Instr.Block()) {
+				r.viol("K2-only-under", fnName, construct, fmt.Sprintf("%s at %s:%d is reachable on a path where %s does not hold", match, cs.File, cs.Line, cond), why, cs.File, cs.Line)
+				return
+			}
+		}
+		r.pass("K2-only-under", fnName, construct, fmt.Sprintf("%d site(s)", len(sites)), why, g.File, g.Line)
+		return
+	}
+	var have []string
+	for _, g := range r.P.Info(fn).guards {
+		have = append(have, g.Cond.String())
+	}
+	r.viol("K2-only-under", fnName, construct, fmt.Sprintf("%s no longer branches on %s; it branches on: %s", fnName, cond, strings.Join(have, " ; ")), why, file, line)
+}
+
+// CallsUnderLock: every call matching `match` in fn executes with recv.<mutex> definitely held.
+func (r *Run) CallsUnderLock(fnName, mutex, match, why string) {
+	fn := r.fn(fnName)
+	if fn == nil {
+		return
+	}
+	file, line := r.P.FnPos(fn)
+	construct := match + " under " + mutex
+	sites := r.P.FindCalls(fn, match, false)
+	if len(sites) == 0 {
+		r.viol("K6-lockset", fnName, construct, fnName+" no longer calls "+match, why, file, line)
+		return
+	}
+	st := r.P.lockState(fn, "recv."+mutex, false)
+	for _, cs := range sites {
+		if !st[cs.Instr.(ssa.Instruction)] {
+			r.viol("K6-lockset", fnName, construct, fmt.Sprintf("%s at %s:%d executes without %s held", match, cs.File, cs.Line, mutex), why, cs.File, cs.Line)
+			return
+		}
+	}
+	r.pass("K6-lockset", fnName, construct, fmt.Sprintf("%d site(s)", len(sites)), why, sites[0].File, sites[0].Line)
+}
+
+// AllocCount: fn allocates exactly n values of the external/module named type (by short type string).
+func (r *Run) AllocCount(fnName, shortTyp string, n int, why string) {
+	fn := r.fn(fnName)
+	if fn == nil {
+		return
+	}
+	file, line := r.P.FnPos(fn)
+	got := 0
+	for _, b := range fn.Blocks {
+		for _, in := range b.Instrs {
+			if a, ok := in.(*ssa.Alloc); ok && shortType(a.Type().(*types.Pointer).Elem()) == shortTyp {
+				got++
+			}
+		}
+	}
+	construct := fmt.Sprintf("exactly %d %s", n, shortTyp)
+	if got != n {
+		r.viol("K2-alloc-count", fnName, construct, fmt.Sprintf("%s creates %d values of %s, expected %d", fnName, got, shortTyp, n), why, file, line)
+		return
+	}
+	r.pass("K2-alloc-count", fnName, construct, "", why, file, line)
+}
